@@ -342,10 +342,23 @@ Definition fn_resolvable (lit : bool) (fn : bytes) (st : state) : bool :=
   (* a named function given as a bare word is looked up as a local first (LocalVariableNode): a local of that name is outside the fragment *)
   lit || match a_get fn (stk st) with Some _ => false | None => true end.
 
+(* getHOFSpace runs before the first callback (and for empty collections too): the function must exist with the arity
+   this higher-order function needs for this kind of collection, else the program ends *)
+Definition hof_arity (h : hof) (ismap : bool) : nat :=
+  match h with
+  | HApply | HSelect | HAny | HEvery => if ismap then 2%nat else 1%nat
+  | HReduce | HFold | HSort => if ismap then 4%nat else 2%nat
+  end.
+Definition hof_fn_ok (h : hof) (ismap : bool) (lit : bool) (fn : bytes) : bool :=
+  Bool.eqb lit (is_lit_name fn) &&
+  match find_fn false fn (hof_arity h ismap) fns with Some _ => true | None => false end.
+
 Definition eval_hof (h : hof) (c : expr) (lit : bool) (fn : bytes) (init : option expr) (st : state) : res (tres * state) :=
   do (vc, st1) <- ev c st;
   if negb (fn_resolvable lit fn st1) then Unsup else
   do (vi, st2) <- match init with Some ie => ev ie st1 | None => Ok (VAbsent, st1) end;
+  if (match vc with VArr _ => negb (hof_fn_ok h false lit fn) | VMap _ => negb (hof_fn_ok h true lit fn) | _ => false end)
+  then (if Bool.eqb lit (is_lit_name fn) then Fatal else Unsup) else
   match h, init with
   | HFold, None => Unsup
   | HFold, Some _ =>
